@@ -468,6 +468,8 @@ theorem slot_renders_its_fill_else_its_default_in_trees (env : Env) (fuel : Nat)
           (renderSlot env (fuel + 1) nameE false isRequired data body ctx).run.run w = (renderNodes env fuel body c3).run.run w) ∨
        (∃ f, sGet (slotNameOf (evalExpr ctx nameE)) cc.fills = some f ∧
           (∀ d, f.dataVar = some d → ctxGet c3 d = some (.dict (evalKwargs ctx data))) ∧
+          (∀ k, Djc.Proofs.Calm.internal k = false → k ≠ compVarsKey → f.dataVar ≠ some k → lookupL k f.extra = none →
+            ctxGet c3 k = ctxGet (if env.isolated then cc.outer.getD [] else ctx) k) ∧
           (renderSlot env (fuel + 1) nameE false isRequired data body ctx).run.run w = (renderNodes env fuel f.nodes c3).run.run w))) :=
   Djc.Proofs.Tree.slot_unfolds env fuel nameE isRequired data body ctx w hc hw
 
@@ -485,7 +487,7 @@ theorem unfilled_slot_renders_its_default_content_in_trees (env : Env) (fuel : N
   rcases Djc.Proofs.Tree.slot_unfolds env fuel nameE isRequired data body ctx w hc hw with h | h | ⟨cid, cc, c3, h1, h2, _, hcase⟩
   · exact Or.inl h
   · exact Or.inr (Or.inl h)
-  · rcases hcase with ⟨_, hs, hr⟩ | ⟨f, hf, _, _⟩
+  · rcases hcase with ⟨_, hs, hr⟩ | ⟨f, hf, _, _, _⟩
     · exact Or.inr (Or.inr ⟨c3, hs, hr⟩)
     · rw [hnf cid cc h1 h2] at hf; cases hf
 
